@@ -117,9 +117,49 @@ def cow_class_sweep(ctx, prop="C08", ops=("make_mut", "make_unique", "offset_mak
         ctx.violation("ops", "\n".join(body), True)
 
 
+
+def cow_destructor_panic_pass(ctx, prop="C08"):
+    """copy-on-write on a shared handle whose other owner leaves inside `T::clone`: the release of the old allocation at the
+    end of make_mut / make_unique is then the LAST one and runs the old value's destructor, which panics (or not).  In the
+    model the call is `makeMut` followed by the release of the other owner (Driver/Hist.lean `makeMutH … drop`): the handle
+    is redirected to the fresh, solely owned copy whatever the destructor of the old value does; both blocks are freed once."""
+    import subprocess
+    exe, out = common.cargo_build_bin(ctx, "uninit")
+    if exe is None:
+        return
+    cases = [(o, w) for o in ("make_mut", "make_unique") for w in ("none", "el")]
+    pr = subprocess.run([exe], input="".join("cowdp %s %s\n" % c for c in cases), capture_output=True, text=True, timeout=120)
+    lines = pr.stdout.split("\n")
+    bad = []
+    for i, (o, w) in enumerate(cases):
+        l = lines[i] if i < len(lines) and lines[i] else "st=crash(rc=%s)" % pr.returncode
+        kv = dict(x.split("=", 1) for x in l.split() if "=" in x)
+        why = []
+        if kv.get("st") != ("panic" if w == "el" else "ok"):
+            why.append("status %s" % kv.get("st"))
+        if kv.get("val") != "107":
+            why.append("after the call the handle reads %s, the copy made by Clone is 107: the handle was not redirected to the fresh copy" % kv.get("val"))
+        if kv.get("cnt") != "1":
+            why.append("the handle reports count %s, must be the sole owner of the copy" % kv.get("cnt"))
+        if kv.get("never_freed") != "0" or kv.get("freed_twice") != "0" or kv.get("blocks") != "2":
+            why.append("allocator: %s blocks, %s never freed, %s freed twice (expected 2 / 0 / 0)" % (kv.get("blocks"), kv.get("never_freed"), kv.get("freed_twice")))
+        if kv.get("edrop") != "2":
+            why.append("%s destructor runs, expected 2 (the old value and the copy)" % kv.get("edrop"))
+        if why:
+            bad.append(((o, w), l, why))
+    ctx.oblige("faults:cow-last-release-with-panicking-destructor", not bad, "%d failing" % len(bad))
+    ctx.coverage["cow_destructor_panic"] = {"cases": len(cases), "failures": len(bad), "sample": lines[1] if len(lines) > 1 else ""}
+    ctx.coverage["evaluations"] = ctx.coverage.get("evaluations", 0) + len(cases)
+    if bad:
+        body = ["copy-on-write on a shared handle; the other owner is dropped inside T::clone, so the old allocation's last release happens inside the call; its destructor panics (el) or not (none):", ""]
+        for (c, l, why) in bad[:4]:
+            body += ["case : cowdp %s %s" % c, "  impl : " + l, "  PROPERTY %s FAILS: " % prop + "; ".join(why), ""]
+        ctx.violation("ops", "\n".join(body), True)
+
 def run(ctx):
     facts, res, bad = schedule_part(ctx, "C08", PROGRAMS_QUICK)
     cow_class_sweep(ctx)
+    cow_destructor_panic_pass(ctx)
     histcheck.run(ctx, MODULE, WEIGHTS, TAGS, lean_extra=EXTRA)
     if bad and not any(v["kind"] == "miri" for v in ctx.violations) and not getattr(ctx, "sched_handled", False):
         schedule_search(ctx, "C08", bad, [])
